@@ -1,6 +1,7 @@
 (* C04  Persistence: a fresh handle or process sees exactly what was written.
    Only statements, each closed by a lemma of Store/*.v, with Print Assumptions. *)
 From Klepto Require Import OMap OMapFacts DictSpec DictFacts FileArch Backends CacheDict CacheDictFacts SyncLaws Persist.
+From Klepto Require Import CacheCore CoreInv CoreStep CoreStore.
 
 (* handles hold no contents: after any history through any handles on a location, a fresh handle on
    that location answers every operation as the dict that underwent the history *)
@@ -26,6 +27,13 @@ Theorem C04_dump_then_fresh_load : forall c, wf_c c -> is_null (arch c) = false 
   forall k v, get (mem c) k = Some v -> get (mem (fst (cstep fresh (CLoad [])))) k = Some v.
 Proof. exact dump_then_fresh_load. Qed.
 
+(* a decorated function re-created on an archive (ANY well-formed state whose attached archive holds the
+   key - in particular a fresh one with empty memory, any of the twelve decorators) is served from it:
+   no history of calls / load / dump / introspection ever evaluates that key again *)
+Theorem C04_recreated_function_is_served : forall c ops s k,
+  forallb traffic ops = true -> Good c s -> has c s k -> evals c s ops k = 0.
+Proof. exact held_never_evaluated. Qed.
+
 Example C04_two_handles :
   snd (hstep (hrun (fun _ => []) [(mkH 1 0, DSet 5 50); (mkH 1 7, DSet 6 60); (mkH 1 0, DDel 5)]) (mkH 1 9) (DGet 6)) = RVal (Some 60).
 Proof. reflexivity. Qed.
@@ -34,3 +42,4 @@ Print Assumptions C04_fresh_handle_sees_history.
 Print Assumptions C04_file_later_op_sees_history.
 Print Assumptions C04_sql_rows_hold_history.
 Print Assumptions C04_dump_then_fresh_load.
+Print Assumptions C04_recreated_function_is_served.
